@@ -17,6 +17,11 @@ CHECKS = {
    text="The complete product of 2^7 difference subsets (labels, annotations, spec scalar, nested spec element, status, submitted generation, finalizers) x old generation {0,1,7} x 3 kind/strategy configurations is pushed through main update, status update and create as the generic registry does; after each call spec/labels (status update), status (main update), cleared status and generation 1 (create) and 'generation +1 iff spec or annotations differ by value' are checked. Exhaustive for this alphabet; other field shapes are outside it.",
    ref="DESIGN.md §6 C20",
    note="Trusted: rest.BeforeUpdate/BeforeCreate of the vendored apiserver as the entry point (no etcd), the strategy wiring copied from rest.go (a change of the registered strategy objects there is picked up, a change of the wiring in registry/rest.go's statusStore is not)."),
+ "C17": dict(cat="exploration", engine="enum",
+   technique="bounded-exhaustive enumeration of rule lists through the real admission plugin with a differential oracle on the real matcher (submitted vs stored rule, every request value)",
+   text="Every list of up to 4 (thorough 5) entries per rule field (C01 alphabet plus the empty string and duplicates, near-miss request values included) and every pair of fields (lists up to 2/3) goes through the real plugin's Admit(); for every request value of the field(s) clusters.RuleMatches must give the same verdict for the submitted and the stored rule; Admit(Admit(x)) must equal Admit(x) and nothing outside the rules may change except defaulting. Differential, so independent of the meaning of the matcher.",
+   ref="DESIGN.md §6 C17",
+   note="Trusted: admission.NewAttributesRecord/ObjectInterfacesFromScheme stand in for the API server's admission chain; token and request alphabets of h/rulekit."),
 }
 def manifest():
     checks = []
